@@ -154,7 +154,7 @@ CHECKS = {
              'cursor stepped by a constant on a cycle that reads the text at it steps only past characters proven ASCII on that '
              'path (literal match, range bound, is_ascii* or ASCII lookahead), so it stays on a character boundary; (5) every '
              'unwrap of a peek S[k..].chars().next() is reached only with k < len(S) (linear bounds domain + 3 library postconditions); '
-             '(6) no Span bound is computed from the length of an owned String (a processed copy of the text).',
+             '(6) no Span bound is computed from the length of an owned String (a processed copy of the text). No returned position, slice bound or span is computed from the length of a transformed copy of the text (to_lowercase and the like change byte lengths).',
         note='Decides "never hangs in a scanner loop", "no panic from unwrapping an input-dependent failure" and "no unbounded '
              'recursion", plus the constant-step instance of the char-boundary clause; does NOT decide absence of slicing/index '
              'panics in general nor that every span lies on a char boundary. '
@@ -229,7 +229,7 @@ CHECKS = {
              'evidence (exit on an unchanged round, or cyclic rules finalised beforehand); a maximum is final only when no '
              'production of the rule is incomplete; the minimal-sentence generator stops scanning a production once it has '
              'deferred to a rule (else the rest is emitted twice and out of order); the path query compares every edge it discovers with '
-             'the target (or skips only rules it marked right after comparing them).',
+             'the target (or skips only rules it marked right after comparing them). On a deferring round of min_sentence the frame of the rule just met is pushed last onto the LIFO work stack.',
         note='A necessary condition for exactness and termination-at-the-fixed-point. That the transfer functions are right beyond the '
              'FIRST/nullable pairing is NOT decided (the pairing rule found a real FOLLOW defect, fixed in /repo 2a78056); '
              'nor is reachability; of minimal sentences only the defer-then-stop discipline (it found the defect fixed in /repo 4c9dae6); 1 known finding (rule_min_costs can hang / overflow on unit cycles and '
@@ -265,7 +265,7 @@ CHECKS = {
              'str::lines()-item length + 1 (lines() strips CR LF too). Every library construction of a lexer hands over a line table '
              'built from exactly the lexer\'s text: NewlineCache::from_str(text), or pieces that provably tile it (ghost-cursor argument). '
              'A lexer\'s line_col answers both ends of a span with the line table\'s query; no unchecked subtraction is made from the length of a '
-             'str::lines() item (it excludes the terminator a position may lie in).',
+             'str::lines() item (it excludes the terminator a position may lie in). The caret line of a diagnostic is indented by the width of the line number printed on that very line.',
         note='A necessary condition of "the lines-of-span query never panics, including spans that end at a line start or at '
              'the end of the text"; it found the out-of-bounds read fixed in /repo 707b1f1 and the subtraction overflow fixed in 3bc64fc. NOT decided: that line '
              'numbers and returned byte ranges are the right ones, the str slicing done with them in lrlex/lrpar, '
